@@ -25,12 +25,12 @@ def run(ctx):
     fc.run_filter(ctx, vh, t, cases=cp, repos=REPOS)
     traces.append(t)
     # 3. direction B: seeded-random histories under seeded-random table policies / allow sets
-    nrand = 40 if quick else 2000
+    nrand = 48 if quick else 2100
     i = 0
     while nrand > 0:
         k = min(500, nrand)
         t = os.path.join(td, 'rand%d.ndjson' % i)
-        fc.run_filter(ctx, vh, t, n=k, steps=30 if quick else 40, seed=ctx.seed * 1000 + i)
+        fc.run_filter(ctx, vh, t, n=k, steps=30 if quick else 40, seed=ctx.seed * 1000 + i, kinds='checker,select,tree')
         traces.append(t)
         nrand -= k
         i += 1
@@ -41,7 +41,7 @@ def run(ctx):
                           dict(rejected=fc.sample_events(traces[-1], 2, lambda e: e.get('ok') is False and not e['backend'] and e['cons'])),
                           dict(listing=fc.sample_events(traces[0], 2, lambda e: e['op'] == 'ListRepos' and len(e['cons']) > 2))]
     vlib.judge_traces(ctx, 'OciFilterTrace', 'OciFilterTrace.cfg', traces, shard_lines=1500 if quick else 6000, label='AccessChecker/Select vs OciFilter')
-    need = ['checker:listing-failed-with-name', 'select:listing-failed-with-name', 'checker:rejected', 'select:rejected', 'checker:MountBlob', 'checker:ListRepos', 'select:ListRepos', 'checker:Write', 'checker:Commit']
+    need = ['tree:ListRepos', 'tree:rejected', 'checker:listing-failed-with-name', 'select:listing-failed-with-name', 'checker:rejected', 'select:rejected', 'checker:MountBlob', 'checker:ListRepos', 'select:ListRepos', 'checker:Write', 'checker:Commit']
     missing = [k for k in need if not ctx.cov['per_op'].get(k)]
     if missing:
         raise vlib.Machinery('the batch never exercised: %s' % ', '.join(missing))
